@@ -250,6 +250,55 @@ func (st *State) ptrTerm(p *Ptr) string {
 	return "0"
 }
 
+// A struct of the package that is embedded by value in another struct (Trait in TraitOf[V], logTrait in Failover)
+// is an object of its own: its address is an injective function of the enclosing object, and its fields live in
+// the arrays of ITS type. So a method of the embedded type called on the interior pointer and a direct access
+// through the enclosing struct name the same memory.
+func (e *Engine) isEmbeddedObject(f *types.Var) bool {
+	if !f.Embedded() {
+		return false
+	}
+	n, ok := f.Type().(*types.Named)
+	if !ok || n.Obj().Pkg() != e.P.TPkg || isTimeTime(n) {
+		return false
+	}
+	_, isStruct := n.Underlying().(*types.Struct)
+	return isStruct
+}
+
+// leafLoc maps a leaf (root object, field path) to the heap array and the index that hold it.
+func (st *State) leafLoc(rootT types.Type, root, path string) (string, string) {
+	e := st.e
+	if !strings.Contains(path, ".") {
+		return heapName(e, rootT, path), root
+	}
+	t := e.P.canonT(rootT)
+	segs := strings.Split(path, ".")[1:]
+	prefix := ""
+	for i, seg := range segs {
+		s, ok := t.Underlying().(*types.Struct)
+		if !ok || isTimeTime(t) {
+			break
+		}
+		idx, f := findField(s, seg)
+		if idx < 0 {
+			break
+		}
+		prefix += "." + seg
+		if e.isEmbeddedObject(f) {
+			root = st.ptrTerm(&Ptr{Kind: PObj, Root: root, RootT: rootT, Path: prefix})
+			rootT, t, prefix = f.Type(), f.Type(), ""
+			rest := ""
+			if i+1 < len(segs) {
+				rest = "." + strings.Join(segs[i+1:], ".")
+			}
+			return st.leafLoc(rootT, root, rest)
+		}
+		t = e.P.canonT(f.Type())
+	}
+	return heapName(e, rootT, path), root
+}
+
 func (st *State) checkNonNil(term string, pos token.Pos, what string) {
 	if term == "0" {
 		st.oblige("safety", "nil:"+what, st.e.curProps, "false", pos)
@@ -334,12 +383,12 @@ func (st *State) loadPtr(p *Ptr, pos token.Pos) Val {
 	case PObj:
 		st.checkNonNil(p.Root, pos, "load")
 		for _, c := range comps {
-			nm := heapName(e, p.RootT, p.Path+c.Path)
+			nm, root := st.leafLoc(p.RootT, p.Root, p.Path+c.Path)
 			e.noteRef(nm, c)
 			a := st.arr(nm, arrSort(c.Sort))
-			st.instantiateForArray(nm, p.Root)
-			t := sel(a, p.Root)
-			if kv, ok := st.known[nm+"\x00"+p.Root]; ok {
+			st.instantiateForArray(nm, root)
+			t := sel(a, root)
+			if kv, ok := st.known[nm+"\x00"+root]; ok {
 				t = kv // the value this path itself stored there (no intervening write can alias it)
 			}
 			v.C = append(v.C, t)
@@ -377,11 +426,11 @@ func (st *State) storePtr(p *Ptr, v Val, pos token.Pos) {
 	case PObj:
 		st.checkNonNil(p.Root, pos, "store")
 		for i, c := range comps {
-			name := heapName(e, p.RootT, p.Path+c.Path)
+			name, root := st.leafLoc(p.RootT, p.Root, p.Path+c.Path)
 			e.noteRef(name, c)
 			a := st.arr(name, arrSort(c.Sort))
-			st.setArrRaw(name, arrSort(c.Sort), store(a, p.Root, v.C[i]), false)
-			st.noteKnown(name, p.Root, v.C[i])
+			st.setArrRaw(name, arrSort(c.Sort), store(a, root, v.C[i]), false)
+			st.noteKnown(name, root, v.C[i])
 			if !st.allocConst[p.Root] {
 				st.written[name] = true
 			}
